@@ -5,7 +5,7 @@ A pattern is a list of items; an item is a set of acceptable canonical tokens, o
 Canonical tokens:  C:<hex>  BE16/BE32/BE64  A<n> (n-byte array)  V (byte string of data-dependent or statically unknown length)
                    SUB(<tok>,<range>)  BUF<len>{pos:tok;...}  [b0,b1,..]  u8 / u8:0xNN  FILL(n,v)  ->fn(shared|mut)
 Where the code passes a slice whose width the types do not fix (verifier side, parsed input) `V` is accepted in place of A16 / A4."""
-from . import hl
+from . import core, hl
 
 I16 = {"A16", "V"}          # tree identifier I (16 bytes)
 Q4 = {"A4", "BE32", "V"}    # q / r as u32str (already big-endian bytes, or encoded here)
@@ -39,6 +39,8 @@ def canon(tok):
             return "C:%s" % "".join("%02x" % int(x, 16) for x in tok[2])
         return "[%s]" % ",".join(tok[2])
     if k == "FILL":
+        if isinstance(tok[1], int) and isinstance(tok[2], int) and tok[1] <= 256 and 0 <= tok[2] < 256:
+            return "C:" + ("%02x" % tok[2]) * tok[1]   # a constant array written as a repeat expression
         return "FILL(%s,%s)" % (tok[1], tok[2])
     if k == "BYTE":
         return "u8:%s" % tok[2] if str(tok[2]).startswith("0x") else "u8"
@@ -307,6 +309,15 @@ def classify(start, items, fn_path):
 
 
 # ---------------------------------------------------------------------------------------------- shared rule helpers
+def _subst(e, consts):
+    """Replace ('param', i) fill values inside a session entry by the constant the caller passes (if any)."""
+    if isinstance(e, tuple):
+        if len(e) == 3 and e[0] == "FILL" and isinstance(e[2], tuple) and e[2] and e[2][0] == "param":
+            return ("FILL", e[1], consts.get(e[2][1]))
+        return tuple(_subst(x, consts) for x in e)
+    return e
+
+
 def analyse_sessions(F):
     """[(fn, end kind, block, start, items, classes, rendered)] for every hasher session of the crate."""
     S = hl.Sessions(F)
@@ -322,7 +333,42 @@ def analyse_sessions(F):
                     cls2 = classify(fl[0], fl[1], f.path)
                     if cls2:
                         st, items, cls = fl[0], fl[1], cls2
-            out.append((f, end, b, st, items, cls, hl.render_session(sess)))
+            out.append([f, end, b, st, items, cls, hl.render_session(sess), sess])
+    # a hasher prepared by a local helper (`fn keyed(key, pad) -> H`) and continued by its callers: the preimage is the helper's
+    # absorbed data (its parameters replaced by the constants the caller passes) followed by the caller's.  Only sessions that
+    # are not reference preimages on their own are stitched; the helper's own fragment is then accounted for by its callers.
+    by_fn = {}
+    for rec in out:
+        by_fn.setdefault(rec[0].path, []).append(rec)
+    for _round in range(3):
+        for rec in out:
+            f, cls, sess = rec[0], rec[5], rec[7]
+            if cls and cls != ["EMPTY"]:
+                continue
+            start = next((e for e in sess if e[0] == "START"), None)
+            if start is None or len(start) < 3:
+                continue
+            gp, cb = start[2]
+            pieces = [r for r in by_fn.get(gp, []) if r[1] == "return"]
+            if len(pieces) != 1 or (cls == ["EMPTY"] and pieces[0][5]):
+                continue
+            g = F.fns[gp]
+            call = f.blocks[cb]["term"]
+            consts = {i + 1: core.op_const_val(a) for i, a in enumerate(call["args"])}
+            stitched = tuple(_subst(e, consts) for e in pieces[0][7]) + tuple(e for e in sess if e[0] != "START")
+            st2, items2 = canon_session(stitched)
+            cls2 = classify(st2, items2, f.path)
+            if cls2:
+                rec[3], rec[4], rec[5] = st2, items2, cls2
+                rec[6] = hl.render_session(stitched)
+                pieces[0].append("used")
+    for rec in out:
+        if not rec[5] and rec[1] == "return" and len(rec) > 8:
+            # every continuation of this fragment must have become a reference preimage
+            conts = [r for r in out if r is not rec and any(e[0] == "START" and len(e) >= 3 and e[2][0] == rec[0].path for e in r[7])]
+            if conts and all(r[5] for r in conts):
+                rec[5] = ["PART"]
+    out = [tuple(r[:7]) for r in out]
     return S, out
 
 
